@@ -292,6 +292,82 @@ def _bin_multiset8_chunk(params, lo, hi):
     return r
 
 
+def large_cases():
+    """larger instances with optima known in closed form or by a plain integer DP (reference model)"""
+    out = []
+    vals = [i % 3 + 1 for i in range(70)]
+    out.append(("knapsack", "70_unit_weights_cap35", vals, [1] * 70, 35))
+    out.append(("knapsack", "40_items_weights_2_to_6_cap60", [(i * 7) % 11 + 1 for i in range(40)], [2 + i % 5 for i in range(40)], 60))
+    out.append(("knapsack", "25_items_zero_and_big_weights_cap50", [(i * 5) % 9 for i in range(25)], [0 if i % 6 == 0 else 3 + (i * 4) % 17 for i in range(25)], 50))
+    out.append(("binpack", "70_unit_items_cap10", [1] * 70, 10, 7))
+    out.append(("binpack", "20_sixes_cap10", [6] * 20, 10, 20))
+    out.append(("binpack", "20_fives_cap10", [5] * 20, 10, 10))
+    out.append(("binpack", "sevens_then_threes_cap10", [7] * 10 + [3] * 10, 10, 10))
+    out.append(("binpack", "threes_then_sevens_cap10", [3] * 10 + [7] * 10, 10, 10))
+    out.append(("binpack", "alternating_7_3_cap10", [7, 3] * 10, 10, 10))
+    out.append(("binpack", "12_fours_12_sixes_cap10", [4] * 12 + [6] * 12, 10, 12))
+    return out
+
+
+def _dp_knapsack(values, weights, cap, minimize):
+    best = [0] * (cap + 1)
+    for v, w in zip(values, weights):
+        gain = -v if minimize else v
+        if gain <= 0:
+            continue
+        for c in range(cap, w - 1, -1):
+            if best[c - w] + gain > best[c]:
+                best[c] = best[c - w] + gain
+    return -best[cap] if minimize else best[cap]
+
+
+def _large_chunk(params, lo, hi):
+    from solvor.bin_pack import solve_bin_pack
+    from solvor.knapsack import solve_knapsack
+    from solvor.types import Status
+
+    cases = large_cases()
+    r = new_result()
+    for idx in range(lo, hi):
+        c = cases[idx]
+        wit = {"large": c[1]}
+        if c[0] == "knapsack":
+            _, name, values, weights, cap = c
+            for minimize in (False, True):
+                vals = [-v for v in values] if minimize else values  # minimising negated values is the same problem
+                r["n"] += 1
+                r["nontrivial"] += 1
+                try:
+                    res = gcall(lambda: solve_knapsack(list(vals), list(weights), cap, minimize=minimize), 20.0, 300_000_000)
+                except Exception as ex:  # noqa: BLE001
+                    r["violations"].append(viol("solve_knapsack", "raised", dict(wit, minimize=minimize), f"solve_knapsack on {name}, minimize={minimize}: {type(ex).__name__}: {ex}"))
+                    continue
+                r["outcomes"]["large:knapsack:" + res.status.name] += 1
+                sel = res.solution
+                errs = []
+                if not isinstance(sel, tuple) or len(set(sel)) != len(sel) or any(i < 0 or i >= len(vals) for i in sel):
+                    errs.append(("bad_indices", f"solution {sel!r}"))
+                else:
+                    if sum(weights[i] for i in sel) > cap:
+                        errs.append(("over_capacity", f"selected weight {sum(weights[i] for i in sel)} > {cap}"))
+                    tv = sum(vals[i] for i in sel)
+                    if abs(tv - res.objective) > 1e-9:
+                        errs.append(("objective_not_sum", f"objective {res.objective}, selected values sum to {tv}"))
+                    want = _dp_knapsack(vals, weights, cap, minimize)
+                    if res.status == Status.OPTIMAL and tv != want:
+                        errs.append(("optimal_but_not_best", f"status OPTIMAL with value {tv}, the integer DP finds {want}"))
+                for kind, detail in errs:
+                    r["violations"].append(viol("solve_knapsack", kind, dict(wit, minimize=minimize), f"solve_knapsack on {name}, minimize={minimize}: {detail}"))
+        else:
+            _, name, sizes, cap, opt = c
+            for algo in ALGOS:
+                errs, label = judge_binpack(sizes, cap, algo, True, opt)
+                _rec(r, "solve_bin_pack", errs, label, True, dict(wit, algorithm=algo, sizes=sizes, capacity=cap))
+        if not r["samples"]:
+            r["samples"].append(wit)
+    return r
+
+
 def _bin_dec_chunk(params, lo, hi):
     if isinstance(params, tuple):
         n, tenths = params
@@ -331,6 +407,7 @@ def jobs(tier, seed):
         js.append(Job(f"knapsack_decimal_n{n}", 18**n * 6 * 2, _knap_dec_chunk, n, describe="decimal weights/capacities, values 1..3"))
     for n in (2, 3, 4):
         js.append(Job(f"knapsack_fine_decimal_n{n}", 8**n * 3 * 2, _knap_fine_chunk, n, describe="weights in {0.3334,0.5001,0.2499,0.0004} (finer than the DP's scaling grid), capacities {1.0,0.75,0.001}, values {1,2}: capacity and objective clauses only"))
+    js.append(Job("large_closed_form", len(large_cases()), _large_chunk, None, chunk=1, describe="knapsacks with 25-70 items (reference: plain integer DP), bin packing with 20-70 items whose optimum is known in closed form, four algorithms"))
     js.append(Job("binpack_8_items_all_multisets_cap10", 24310 * 2, _bin_multiset8_chunk, None, describe="every multiset of 8 sizes from 1..10, capacity 10, ascending and interleaved order, four algorithms"))
     js.append(Job("binpack_nine_items_three_sizes", len(TRIPLES) * 2, _bin_triples_chunk, None, describe="3 copies each of a<=b<=c in 1..12, capacity 20, ascending and interleaved order, 12 spellings of the four algorithm names"))
     js.append(Job("knapsack_big_integer_capacity", 3 * 64 * 8, _knap_big_chunk, None, chunk=8, describe="3 items, capacity in {100000,100001,200000}, weights in {1,2,C-2,C}, values {1,10}: exact integer data beyond the DP's table threshold"))
@@ -348,6 +425,14 @@ def jobs(tier, seed):
 
 def replay(v):
     w = v["witness"]
+    if w.get("large"):
+        names = [c[1] for c in large_cases()]
+        i = names.index(w["large"])
+        rr = _large_chunk(None, i, i + 1)
+        for x in rr["violations"]:
+            if x["kind"] == v["kind"] and x["witness"].get("algorithm") == w.get("algorithm") and x["witness"].get("minimize") == w.get("minimize"):
+                return x
+        return None
     if v["function"] == "solve_knapsack":
         errs, _, _ = judge_knapsack(w["values"], w["weights"], w["capacity"], w["minimize"], not w.get("decimal"), optimality=not w.get("fine"))
     else:
